@@ -56,6 +56,48 @@ def generate(seed, n_each=40):
     return A
 
 
+def chr_lit(c):
+    return "'\\n'" if c == '\n' else "'\\r'" if c == '\r' else "'\\u{%x}'" % ord(c)
+
+
+def generate_c19(seed, n=40):
+    """documents as Seq<char>: byte offsets and (line, column) by counting, computed by CPython"""
+    rnd = random.Random(seed)
+    pool = ['a', 'b', ' ', '\n', '\r', 'é', '日', '😀', '¿', '\u07ff', '\uffff']
+    A = []
+    for _ in range(n):
+        doc = [rnd.choice(pool) for _ in range(rnd.randint(0, 6))]
+        sq = 'Seq::<char>::empty()' if not doc else 'seq![' + ', '.join(chr_lit(c) for c in doc) + ']'
+        k = rnd.randint(0, len(doc))
+        pre = ''.join(doc[:k])
+        line = pre.count('\n')
+        col = len(pre) - (pre.rfind('\n') + 1)
+        A.append(f'assert(byte_off({sq}, {k}) == {len(pre.encode("utf-8"))}) by(compute);')
+        A.append(f'assert(pos_of({sq}, {k}) == ({line}int, {col}int)) by(compute_only);')
+    return A
+
+
+def main_c19(build_dir, seed):
+    os.makedirs(build_dir, exist_ok=True)
+    A = generate_c19(seed)
+    body = ''
+    for k in range(0, len(A), 10):
+        body += f'proof fn conformance_{k // 10}() {{\n    ' + '\n    '.join(A[k:k + 10]) + '\n}\n'
+    specs = open(os.path.join(ROOT, 'specs', 'utf8_pos.rs')).read()
+    text = ('#![allow(unused_imports)]\nuse vstd::prelude::*;\nuse vstd::utf8::*;\nuse vstd::string::*;\nverus! {\n' + specs + body + '\n} // verus!\nfn main() {}\n')
+    open(os.path.join(build_dir, 'spec_conformance.rs'), 'w').write(text)
+    p = subprocess.run(['verus', 'spec_conformance.rs', '--output-json', '--num-threads', '8'], cwd=build_dir, capture_output=True, text=True, timeout=900)
+    try:
+        vr = json.loads(p.stdout)['verification-results']
+    except Exception:
+        return {'ok': False, 'error': (p.stderr or p.stdout)[-600:], 'assertions': len(A)}
+    out = {'ok': bool(vr.get('success')), 'assertions': len(A), 'verified_fns': vr.get('verified'), 'errors': vr.get('errors'),
+           'reference': 'CPython ' + sys.version.split()[0] + ' (str.encode, counting)'}
+    if not out['ok']:
+        out['error'] = p.stderr[-1200:]
+    return out
+
+
 def main(build_dir, seed):
     os.makedirs(build_dir, exist_ok=True)
     A = generate(seed)
@@ -80,6 +122,10 @@ def main(build_dir, seed):
     return out
 
 
+if __name__ == '__main__' and len(sys.argv) > 1 and sys.argv[1] == 'c19':
+    r = main_c19(os.path.join(ROOT, '.build', 'spec_conf19'), int(os.environ.get('VERIF_SEED', '0')))
+    print(json.dumps(r))
+    sys.exit(0 if r['ok'] else 1)
 if __name__ == '__main__':
     r = main(os.path.join(ROOT, '.build', 'spec_conf'), int(os.environ.get('VERIF_SEED', '0')))
     print(json.dumps(r))
